@@ -550,7 +550,9 @@ impl World {
                 let t = self.talks.get_mut(n.wrapping_sub(1)).and_then(|x| x.take());
                 match t {
                     Some(t) => {
-                        let r = util::guarded(move || if o == "talk_respond" { format!("{:?}", t.respond(b"answer".to_vec())) } else { drop(t); "dropped".to_string() });
+                        // "empty": the application answers with an empty payload (still the application's answer, exactly one TALKRESP)
+                        let payload: Vec<u8> = if op.get("empty").and_then(|x| x.as_bool()) == Some(true) { vec![] } else { b"answer".to_vec() };
+                        let r = util::guarded(move || if o == "talk_respond" { format!("{:?}", t.respond(payload)) } else { drop(t); "dropped".to_string() });
                         info.insert("ret".into(), json!(match r { Ok(s) => s, Err(p) => format!("panic: {p}") }));
                     }
                     None => {
